@@ -22,8 +22,11 @@ EXTENDS Chains   \* Integers, FiniteSets, Sequences, FiniteSetsExt, TLC; LogP
 
 (* SymDiff(a, b) = (a \ b) \cup (b \ a) comes from FiniteSetsExt *)
 CellsAt(L, k)  == {x \in DOMAIN L : L[x].dim = k}
-(* boundary of a chain c (a set of cells of L): cells occurring an odd number of times *)
-BdSet(L, c)    == {y \in DOMAIN L : Cardinality({x \in c : y \in L[x].bd}) % 2 = 1}
+(* boundary of a chain c (a set of cells of L): the cells occurring an odd number of times  *)
+(* in the boundaries of the cells of c (BdSetDef), computed as the sum mod 2 of these       *)
+(* boundaries (BdSet; MC_Zigzag checks BdSet = BdSetDef on every chain of every complex)    *)
+BdSetDef(L, c) == {y \in DOMAIN L : Cardinality({x \in c : y \in L[x].bd}) % 2 = 1}
+BdSet(L, c)    == FoldSet(LAMBDA x, acc : SymDiff(acc, L[x].bd), {}, c)
 ZSp(L, k)      == {c \in SUBSET CellsAt(L, k) : BdSet(L, c) = {}}
 BSp(L, k)      == {BdSet(L, c) : c \in SUBSET CellsAt(L, k + 1)}
 IsSubspace(S)  == {} \in S /\ \A a, b \in S : SymDiff(a, b) \in S
